@@ -21,7 +21,7 @@
 //! those the check still owns node type, level, start depth and exactness. Directories above
 //! the base (`/dev/shm`, `/dev`, `/`) are compared with an independent `std::fs` listing.
 //!
-//! Not covered (left unspecified by the statement): symlinked markers, relative start paths,
+//! Not covered (left unspecified by the statement): symlinks to regular files as markers, relative start paths,
 //! start paths that are files or do not exist.
 
 use std::{
@@ -160,6 +160,23 @@ struct Placement {
 	level: usize,
 	name: String,
 	dir: bool,
+	/// a node that is neither a regular file nor a directory ("fifo", "dangling-symlink",
+	/// "symlink-to-dir"): a marker name on such a node is a marker of the wrong node type
+	#[serde(default)]
+	odd: Option<String>,
+}
+
+impl Placement {
+	fn is_marker(&self) -> bool {
+		self.odd.is_none() && model_is_marker(&self.name, self.dir)
+	}
+	fn types(&self) -> Vec<&'static str> {
+		if self.odd.is_some() {
+			vec![]
+		} else {
+			model_types(&self.name, self.dir).collect()
+		}
+	}
 }
 
 #[derive(Clone, Debug, Serialize, Deserialize)]
@@ -169,7 +186,7 @@ struct Tree {
 }
 
 fn pname(p: &Placement) -> String {
-	format!("{}-as-{}", p.name, if p.dir { "dir" } else { "file" })
+	format!("{}-as-{}", p.name, p.odd.as_deref().unwrap_or(if p.dir { "dir" } else { "file" }))
 }
 
 struct Eval {
@@ -194,14 +211,30 @@ fn eval_tree(rt: &tokio::runtime::Runtime, root: &Path, t: &Tree) -> Result<Eval
 			return Err(format!("placement level {} outside the chain", p.level));
 		}
 		let path = chain[p.level].join(&p.name);
-		if p.dir {
+		if let Some(odd) = &p.odd {
+			match odd.as_str() {
+				"fifo" => {
+					use std::os::unix::ffi::OsStrExt;
+					extern "C" {
+						fn mkfifo(path: *const std::os::raw::c_char, mode: u32) -> i32;
+					}
+					let c = std::ffi::CString::new(path.as_os_str().as_bytes()).map_err(|e| e.to_string())?;
+					if unsafe { mkfifo(c.as_ptr(), 0o600) } != 0 {
+						return Err(format!("mkfifo {}: {}", path.display(), std::io::Error::last_os_error()));
+					}
+				}
+				"dangling-symlink" => std::os::unix::fs::symlink("does-not-exist", &path).map_err(|e| format!("symlink: {e}"))?,
+				"symlink-to-dir" => std::os::unix::fs::symlink(".", &path).map_err(|e| format!("symlink: {e}"))?,
+				other => return Err(format!("unknown node kind {other}")),
+			}
+		} else if p.dir {
 			std::fs::create_dir(&path).map_err(|e| format!("mkdir marker: {e}"))?;
 		} else {
 			std::fs::write(&path, b"").map_err(|e| format!("write marker: {e}"))?;
 		}
 	}
 	let at = |lvl: usize| t.placements.iter().filter(move |p| p.level == lvl);
-	let level_is_origin = |lvl: usize| at(lvl).any(|p| model_is_marker(&p.name, p.dir));
+	let level_is_origin = |lvl: usize| at(lvl).any(Placement::is_marker);
 	let above: Vec<PathBuf> = base.ancestors().skip(1).map(Path::to_path_buf).collect();
 
 	let mut ev = Eval { violations: vec![], evaluations: 0, outcomes: vec![], summary: Value::Null };
@@ -214,7 +247,7 @@ fn eval_tree(rt: &tokio::runtime::Runtime, root: &Path, t: &Tree) -> Result<Eval
 			let want = lvl >= 1 && lvl <= start && level_is_origin(lvl);
 			let has = got.contains(&chain[lvl]);
 			if want && !has {
-				let m = at(lvl).find(|p| model_is_marker(&p.name, p.dir)).map(pname).unwrap_or_default();
+				let m = at(lvl).find(|p| p.is_marker()).map(pname).unwrap_or_default();
 				ev.violations.push((
 					format!("C20/origins/missed/{m}"),
 					format!("level {lvl} holds {m} and is an ancestor-or-self of the start (level {start}) but origins() returned only the levels {levels:?} of the chain ({} paths in all)", got.len()),
@@ -223,7 +256,7 @@ fn eval_tree(rt: &tokio::runtime::Runtime, root: &Path, t: &Tree) -> Result<Eval
 			if has && !want {
 				let why = if lvl > start {
 					"below-start".to_string()
-				} else if let Some(p) = at(lvl).find(|p| model_is_marker(&p.name, !p.dir)).or(at(lvl).next()) {
+				} else if let Some(p) = at(lvl).find(|p| p.odd.is_some() || model_is_marker(&p.name, !p.dir)).or(at(lvl).next()) {
 					// blame a marker name of the wrong node type first, then a look-alike
 					format!("not-a-marker/{}", pname(p))
 				} else {
@@ -259,9 +292,9 @@ fn eval_tree(rt: &tokio::runtime::Runtime, root: &Path, t: &Tree) -> Result<Eval
 	for lvl in 1..=t.depth {
 		ev.evaluations += 1;
 		let got: BTreeSet<String> = rt.block_on(project_origins::types(&chain[lvl])).into_iter().map(|t| format!("{t:?}")).collect();
-		let want: BTreeSet<String> = at(lvl).flat_map(|p| model_types(&p.name, p.dir)).map(str::to_string).collect();
+		let want: BTreeSet<String> = at(lvl).flat_map(Placement::types).map(str::to_string).collect();
 		for w in want.difference(&got) {
-			let m = at(lvl).find(|p| model_types(&p.name, p.dir).any(|t| t == w)).map(pname).unwrap_or_default();
+			let m = at(lvl).find(|p| p.types().iter().any(|t| t == w)).map(pname).unwrap_or_default();
 			ev.violations.push((format!("C20/types/missed/{w}-from-{m}"), format!("level {lvl} holds {m} but types() returned {got:?}")));
 		}
 		for g in got.difference(&want) {
@@ -344,7 +377,7 @@ pub fn run(tier: Tier, seed: u64) -> EnumOut {
 		}
 	}
 	let all: Vec<(String, bool)> = names.iter().flat_map(|n| [(n.to_string(), false), (n.to_string(), true)]).collect();
-	let place = |lvl: usize, p: &(String, bool)| Placement { level: lvl, name: p.0.clone(), dir: p.1 };
+	let place = |lvl: usize, p: &(String, bool)| Placement { level: lvl, name: p.0.clone(), dir: p.1, odd: None };
 
 	let mut trees: Vec<Tree> = vec![];
 	for depth in 1..=3 {
@@ -352,6 +385,16 @@ pub fn run(tier: Tier, seed: u64) -> EnumOut {
 		for lvl in 1..=depth {
 			for p in &all {
 				trees.push(Tree { depth, placements: vec![place(lvl, p)] });
+			}
+		}
+	}
+	// marker names on nodes that are neither regular files nor directories
+	for depth in 1..=(if thorough { 3 } else { 2 }) {
+		for lvl in 1..=depth {
+			for n in &names {
+				for odd in ["fifo", "dangling-symlink", "symlink-to-dir"] {
+					trees.push(Tree { depth, placements: vec![Placement { level: lvl, name: (*n).to_string(), dir: false, odd: Some(odd.to_string()) }] });
+				}
 			}
 		}
 	}
@@ -445,7 +488,7 @@ pub fn run(tier: Tier, seed: u64) -> EnumOut {
 	out.extra.insert("project_types".into(), json!(TYPES.len()));
 	out.assumptions = vec![
 		"marker -> type table from the ProjectType rustdoc; origin-only marker names from the crate's published list (the docs do not enumerate them)".into(),
-		"symlinked markers, relative / non-directory / missing start paths are not specified by the statement and not generated".into(),
+		"symlinks to regular files as markers, relative / non-directory / missing start paths are not specified by the statement and not generated".into(),
 		"tmpfs at /dev/shm; ancestors above the generated base are compared with a std::fs listing".into(),
 	];
 	out
